@@ -162,7 +162,7 @@ def per_vm_template(ctx: Ctx, rule: str) -> None:
 
 def per_worker_template(ctx: Ctx, rule: str) -> None:
     fn = ctx.repo.func(ONE)
-    ctx.require_locals(ONE, ["setup_dict", "nodes", "graph", "selected_vms", "vms"])
+    ctx.require_locals(ONE, ["setup_dict", "nodes", "graph", "selected_vms"])
     wl = the_loop(ctx, ONE, ast.For, lambda l: ast.unparse(l.iter) == "graph.workers.values()", "worker loop")
     views = loop_iteration_views(ctx, ONE, wl, None)
     problems = []
@@ -192,11 +192,19 @@ def per_worker_template(ctx: Ctx, rule: str) -> None:
     from ..facts import dict_writes
 
     sd = [ast.unparse(s.value) for s in fn.node.body if isinstance(s, ast.Assign) and ast.unparse(s.targets[0]) == "setup_dict"]
-    wr = {(ast.unparse(k) if k is not None else "*"): ast.unparse(v) for k, v, _ in dict_writes(fn.node, "setup_dict")}
-    ok = sd == ["config['param_dict'].copy()"] and wr == {"'vms'": "vms", "'main_vm'": "selected_vms[0]"}
+    # with a helper local for the joined vm names substituted
+    from ..canon import inline_locals
+
+    def resolved(v):
+        if isinstance(v, ast.Name):
+            ds = [s_ for s_ in fn.node.body if isinstance(s_, ast.Assign) and len(s_.targets) == 1 and ast.unparse(s_.targets[0]) == v.id]
+            if len(ds) == 1:
+                return ast.unparse(ds[0].value)
+        return ast.unparse(v)
+
+    wr = {(ast.unparse(k) if k is not None else "*"): resolved(v) for k, v, _ in dict_writes(fn.node, "setup_dict")}
+    ok = sd == ["config['param_dict'].copy()"] and wr == {"'vms'": "' '.join(selected_vms)", "'main_vm'": "selected_vms[0]"}
     sd = sd + sorted(f"{k}: {v}" for k, v in wr.items())
-    vms = [s for s in fn.node.body if isinstance(s, ast.Assign) and ast.unparse(s.targets[0]) == "vms"]
-    ok = ok and len(vms) == 1 and ast.unparse(vms[0].value) == "' '.join(selected_vms)"
     ctx.record(rule + "p", "PROV", ONE, "the one node per worker covers all selected vms (vms = the selected vms, main_vm = the first)", ok, {"setup_dict": sd},
                "" if ok else "the vm set of the vm-management node changed")
 
